@@ -215,7 +215,7 @@ func TestProp(t *testing.T) {
 	r.SetRule("scripted HTTP servers on 127.0.0.1 and localhost answer the k-th request of a spnego.Client.Do call with the k-th symbol of a script: every sequence of length <= L over {200, 401 bare Negotiate, 401 Negotiate+reject token, 401 other scheme, 302 same host, 302 other host, 500} followed by each constant tail " +
 		"(L = 3 quick, 5 thorough; exhaustive), crossed with a seeded choice of method GET/HEAD/POST, body size {0,1,4 KiB,300 KiB,1 MiB}, explicit vs URL-derived SPN and the etype of the service ticket (six worlds). Every request is recorded (headers, body length and SHA-256). " +
 		"Oracle: request count <= 64; a bare Negotiate challenge to an unauthenticated request is followed by a retry carrying a token that the reference acceptor (holding the service key of the intended SPN) accepts, with an RFC 4121 4.1.1 authenticator checksum; the body received with an authenticated request equals the original; Do returns the server's last response or an error. distinct = (script, method, body, spn mode, etype); non-trivial = all")
-	r.Assume("independent acceptor = ref/accept over ref/kmsg/ref/kcrypto with fresh replay state per token; the JDK GSS acceptor of DESIGN.md is not wired into this check")
+	r.Assume("independent acceptor = ref/accept over ref/kmsg/ref/kcrypto with one replay state per Do call (the tokens of one call must be distinct authenticators); the JDK GSS acceptor of DESIGN.md is not wired into this check")
 	r.Note("a server answering 401 to an unauthenticated request does so before reading the request body (as real servers do)")
 
 	L := 3
@@ -295,6 +295,8 @@ func runScript(r *vh.Run, w *world, ck string, prefix []string, tail, method str
 	}()
 	body := rnd.Bytes(size)
 	wantSHA := fmt.Sprintf("%x", sha256.Sum256(body))
+	// some callers hand over a request that already carries a credential of another scheme
+	other := vh.Pick(rnd, "", "", "", "Basic dXNlcjpwYXNzd29yZA==", "Bearer eyJhbGciOiJub25lIn0.e30.")
 	spn := ""
 	if explicit {
 		spn = explicitSPN
@@ -319,6 +321,9 @@ func runScript(r *vh.Run, w *world, ck string, prefix []string, tail, method str
 				}
 			}
 			rq, _ := http.NewRequest(method, rn.urlA+"/"+rn.id+"/start", rd)
+			if other != "" {
+				rq.Header.Set("Authorization", other)
+			}
 			resp, derr = sc.Do(rq)
 			if resp != nil && resp.Body != nil {
 				io.Copy(io.Discard, resp.Body)
@@ -335,7 +340,7 @@ func runScript(r *vh.Run, w *world, ck string, prefix []string, tail, method str
 	rn.mu.Lock()
 	reqs := append([]reqRec{}, rn.reqs...)
 	rn.mu.Unlock()
-	d := map[string]any{"case": full, "script": ck, "method": method, "body_size": size, "chunked": chunked, "explicit_spn": explicit, "etype": w.et, "requests": trimReqs(reqs), "request_count": len(reqs), "do_error": fmt.Sprint(derr)}
+	d := map[string]any{"case": full, "script": ck, "method": method, "body_size": size, "chunked": chunked, "explicit_spn": explicit, "authorization_set_by_the_caller": other, "etype": w.et, "requests": trimReqs(reqs), "request_count": len(reqs), "do_error": fmt.Sprint(derr)}
 	if resp != nil {
 		d["do_status"] = resp.StatusCode
 	}
@@ -347,7 +352,9 @@ func runScript(r *vh.Run, w *world, ck string, prefix []string, tail, method str
 		r.Violation("C18|unbounded-requests|tail="+tail, fmt.Sprintf("one Do call caused %d requests (bound %d)", len(reqs), maxRequests), d)
 		return
 	}
-	// per request checks
+	// per request checks. The acceptor keeps its replay state for the whole Do call: the tokens of one call (one per challenge,
+	// e.g. along a redirect chain on one host) must be distinct authenticators, or the second one is a replay to the server.
+	replay := map[string]bool{}
 	for i, q := range reqs {
 		if q.Response == s302Same || q.Response == s302Other {
 			if i+1 < len(reqs) {
@@ -371,7 +378,7 @@ func runScript(r *vh.Run, w *world, ck string, prefix []string, tail, method str
 		if explicit {
 			want = kmsg.N(1, "HTTP", "explicit.test.gokrb5")
 		}
-		if why := verifyToken(w, q.Auth, want); why != "" {
+		if why := verifyToken(w, q.Auth, want, replay); why != "" {
 			d["token_defect"] = why
 			r.Violation("C18|token-rejected|"+tokenClass(why), "the Negotiate token of the authenticated retry is not acceptable to an independent acceptor for "+want.String()+": "+why, d)
 			return
@@ -440,7 +447,7 @@ func tokenClass(why string) string {
 }
 
 // verifyToken checks the header value with the independent acceptor; returns "" if acceptable.
-func verifyToken(w *world, hdr string, spn kmsg.Name) string {
+func verifyToken(w *world, hdr string, spn kmsg.Name, replay map[string]bool) string {
 	raw, err := base64.StdEncoding.DecodeString(strings.TrimPrefix(hdr, "Negotiate "))
 	if err != nil {
 		return "base64: " + err.Error()
@@ -471,7 +478,7 @@ func verifyToken(w *world, hdr string, spn kmsg.Name) string {
 	if !tk.SName.Equal(spn) {
 		return fmt.Sprintf("spn: ticket is for %s, intended %s", tk.SName, spn)
 	}
-	v := accept.Accept(kt.Msg, w.keys, accept.Settings{Skew: 5 * time.Minute}, time.Now().UTC(), map[string]bool{})
+	v := accept.Accept(kt.Msg, w.keys, accept.Settings{Skew: 5 * time.Minute}, time.Now().UTC(), replay)
 	if !v.Accept {
 		return "acceptor: " + strings.Join(v.Reasons, "; ")
 	}
